@@ -95,6 +95,7 @@ def mkResult (ids : List Int) : M QResult := fun s =>
 
 def insertNodesGen (legacy : Bool) (count : Nat) (values : QValues) (aliases : List String) (ids : List QId) : M QResult :=
   fun s =>
+  if !legacy && aliases.any (fun a => a = "") then (.error Err.queryNotAllowed, s) else
   let count' := max count aliases.length
   match s.dbIds ids with
   | .error e => (.error e, s)
@@ -176,6 +177,7 @@ def insertValuesLoop : List (QId × List KV) → M (Nat × List Int)
     M.pure (r.1 + rs.1, (match r.2 with | some i => [i] | none => []) ++ rs.2)
 
 def insertValues (ids : List QId) (values : QValues) : M QResult := fun s =>
+  if ids.any (fun q => q = QId.alias "") then (.error Err.queryNotAllowed, s) else
   match values with
   | .single v =>
     (M.bind (insertValuesLoop (ids.map (fun q => (q, v)))) fun r => fun s' =>
@@ -187,8 +189,8 @@ def insertValues (ids : List QId) (values : QValues) : M QResult := fun s =>
 
 /-! ### aliases -/
 
-/-- `InsertAliasesQuery::process`.  Edge ids are rejected (this is the C10 repair owned by another group;
-    the harness never generates that input). -/
+/-- `InsertAliasesQuery::process` (with the C10 repair: edge ids and empty aliases are rejected, the whole query is
+    validated before the first change). -/
 def insertAliasesLoop (legacy : Bool) : List (QId × String) → M Nat
   | [] => M.pure 0
   | (q, a) :: rest => fun s =>
@@ -202,6 +204,9 @@ def insertAliasesLoop (legacy : Bool) : List (QId × String) → M Nat
 
 def insertAliasesGen (legacy : Bool) (ids : List QId) (aliases : List String) : M QResult := fun s =>
   if ids.length ≠ aliases.length then (.error Err.queryNotEnoughData, s)
+  else if !legacy && (ids.zip aliases).any (fun p => p.2 = "" || (match p.1 with
+      | .id i => decide (i < 0)
+      | .alias _ => false)) then (.error Err.queryNotAllowed, s)   -- validation of the whole query first (C10 repair)
   else (M.bind (insertAliasesLoop legacy (ids.zip aliases)) fun n => M.pure ⟨n, []⟩) s
 
 def insertAliases := insertAliasesGen false
